@@ -1,16 +1,21 @@
-// Drivers for property C10 (see env_test.go for the environment).
+// Running one case of property C10 on the real code and decoding what it
+// reported (environment: env_test.go / native_test.go; executor mode:
+// exec_test.go; case generators: drivers_test.go).
 //
 // One case = (working directory, output paths, output directory format,
-// initial input root, produced tree). Per case the driver logs
+// initial input root, produced tree, backend, mode). Per case the log has
 //
 //	reset    the case as given to the real code
 //	new      NewOutputHierarchy: accepted or rejected
 //	parents  CreateParentDirectories: error flag + everything that exists
 //	         afterwards (before the "command" runs)
+//	prerun   (executor mode, instead of new + parents) whether the real
+//	         localBuildExecutor invoked the runner + what existed then
 //	upload   UploadOutputs: error flag, everything that exists afterwards,
 //	         and the decoded ActionResult with every Tree blob decoded
+//	panic    the real code panicked
 //
-// No judgement happens here.
+// No judgement happens here: specs/OutputHierarchyTrace.tla judges.
 package outputs
 
 import (
@@ -25,8 +30,6 @@ import (
 
 	"verif/harness/common"
 )
-
-// The drivers themselves (case generators) are in drivers_test.go.
 
 // ---------------------------------------------------------------------
 // Cases.
